@@ -1513,7 +1513,13 @@ class Ev:
     # ------------------------------------------------------------ library calls
     def call_lib(self, name, args, kwargs, n=None, mod=None):
         if name in self.intr:
-            return self.intr[name](self, args, kwargs)
+            # rule-supplied transfer functions: a keyword argument the function never looked at is not modelled -> fail closed
+            kw = TrackedKw(kwargs)
+            r = self.intr[name](self, args, kw)
+            unread = sorted(set(kwargs) - kw.read - set(getattr(self.intr[name], "kw", None) or ()))
+            if unread:
+                raise self.err(f"call to {name} with keyword(s) {unread} the transfer function does not model", n, mod)
+            return r
         short = name.split(".", 1)[1] if name.startswith("builtins.") else name
         fn = LIB.get(name) or LIB.get(short)
         if fn is None:
@@ -1522,6 +1528,81 @@ class Ev:
         if bad:
             raise self.err(f"call to {name} with keyword(s) {sorted(bad)} the transfer function does not model", n, mod)
         return fn(self, args, kwargs, n, mod)
+
+
+class TrackedKw(dict):
+    """keyword arguments handed to a rule-supplied transfer function; records which ones it consulted"""
+    def __init__(self, d):
+        super().__init__(d)
+        self.read = set()
+
+    def get(self, k, default=None):
+        self.read.add(k)
+        return super().get(k, default)
+
+    def __getitem__(self, k):
+        self.read.add(k)
+        return super().__getitem__(k)
+
+    def __contains__(self, k):
+        self.read.add(k)
+        return super().__contains__(k)
+
+    def pop(self, k, *d):
+        self.read.add(k)
+        return super().pop(k, *d)
+
+    def items(self):
+        self.read.update(super().keys())
+        return super().items()
+
+    def keys(self):
+        self.read.update(super().keys())
+        return super().keys()
+
+    def values(self):
+        self.read.update(super().keys())
+        return super().values()
+
+    def __iter__(self):
+        self.read.update(super().keys())
+        return super().__iter__()
+
+    def all(self):
+        """plain copy for a transfer function that captures every keyword for its rule to judge"""
+        self.read.update(super().keys())
+        return dict(super().items())
+
+    def __len__(self):          # `if k:` / `len(k)` on the whole mapping: treated as a conscious look at all of them
+        self.read.update(super().keys())
+        return super().__len__()
+
+
+def kw_accept(k, name, ok, what=""):
+    """consume keyword `name` of a library call if present; its value must satisfy `ok` (a value-preserving spelling of
+    the default behaviour the transfer function models) - otherwise the call is not modelled"""
+    if name in k:
+        v = k[name]
+        if not ok(v):
+            raise AnalysisError(f"keyword {name}={v!r} {what or 'is not modelled by the transfer function'}")
+
+
+def open_kw(k):
+    """text-mode open(): encoding utf-8/ascii (the formats are ASCII), universal newlines"""
+    kw_accept(k, "encoding", lambda v: v is None or (isinstance(v, str) and v.lower().replace("-", "").replace("_", "") in ("utf8", "ascii", "latin1", "usascii")))
+    kw_accept(k, "newline", lambda v: v is None)
+    kw_accept(k, "errors", lambda v: v in (None, "strict"))
+    kw_accept(k, "buffering", lambda v: True)
+
+
+def yaml_kw(k):
+    """yaml.load(stream, Loader=...): the loaders that read plain mappings/scalars identically"""
+    kw_accept(k, "Loader", lambda v: getattr(v, "name", None) in ("yaml.FullLoader", "yaml.SafeLoader", "yaml.Loader", "yaml.CSafeLoader",
+                                                                   "yaml.CFullLoader", "yaml.CLoader", "yaml.UnsafeLoader"))
+
+
+def whitespace_sep(v):
+    return isinstance(v, str) and v in (r"\s+", r"\s*", r"[ \t]+", r"\s{1,}")
 
 
 class _Continue(Exception):
